@@ -9,8 +9,7 @@ the union-find model (property C20, `Lemmas/UnionFind.lean`).
   `Forest T`      : every edge of `T` (head = most recent) joins two elements not connected by the older edges,
                     i.e. `T` has no cycle
 
-Not proved (P2, oracle-checked against an independent exact Kruskal on every run):
-  kruskal_minimum : Σ w over `kruskal n es` ≤ Σ w over every spanning forest of `es`   (cut property)
+Minimality (`kruskal_minimum`) is proved in Props/C10KruskalMin.lean, the orientation in Props/C10Orient.lean.
 -/
 namespace Mouette.Props.C10
 open Mouette.Trees Mouette.UF
